@@ -207,6 +207,23 @@ def run(ctx):
                             dups.append(kk)
                         seen.add(fname)
                 text = observe(str, out.exc)
+                # data keys whose value the field's own type rejects: the failing path component is the key as given
+                for kk in list(c07.LAST_BAD_KEYS):
+                    fname = None
+                    try:
+                        fname = amap.get(kk)
+                    except TypeError:
+                        pass
+                    if fname is None or kk not in d:
+                        continue
+                    fty = next(f.ty for f in S.ordered_fields() if f.name == fname)
+                    if c07.tree_of(fty, d[kk]) in (None, 'escape'):
+                        continue
+                    ctx.count('independent_bad_value_keys')
+                    if text.kind == 'value' and re.search(r'(?<![\w-])' + re.escape(str(kk)) + r'(?![\w-])', text.val) is None:
+                        ctx.violation('message-names-failing-path', 'dcfaults', i,
+                                      {'type': describe(ty), 'value': short(d, 300), 'key_with_rejected_value': kk, 'text': short(text.val, 600)},
+                                      mech='failing-key-absent')
                 for kk in dups:
                     ctx.count('independent_duplicates')
                     if text.kind == 'value' and re.search(r'(?<![\w-])' + re.escape(str(kk)) + r'(?![\w-])', text.val) is None:
